@@ -26,6 +26,7 @@ DEPS = [
     ('lib.rs::LinkageState::merge', ['C01']),
     ('lib.rs::Method::', ['C02']),
     ('condensed.rs::', ['C07']),
+    ('locations.rs::', ['C18']),
 ]
 
 def props_of(key):
